@@ -61,6 +61,16 @@ RTOL = 1e-9
 # ---------------------------------------------------------------------------------------
 def attach_monitors(I, counts):
     from nifty.cl.operators import simplify_for_const as sfc
+    import importlib
+    import pkgutil
+    import nifty.cl.operators as ops_pkg
+    # some operator modules (sum_operator, chain_operator) are imported lazily by NIFTy:
+    # load them all so that the class walk sees every override
+    for m in pkgutil.iter_modules(ops_pkg.__path__):
+        try:
+            importlib.import_module("nifty.cl.operators." + m.name)
+        except Exception:
+            pass
     name = "_simplify_for_constant_input_nontrivial"
     seen, stack, classes = set(), [I.Operator], []
     while stack:
@@ -117,12 +127,17 @@ def gen_case(ck, rng, mr):
     cplx = bool(rng.integers(0, 6) == 0)
     cfg = dict(md=True, nkeys=(2, 4), cplx=cplx, steps=(3, ck.pick(9, 13)),
                maxdepth=ck.pick(6, 9), energy=0.5, leafops=True, p_subst=0.1,
-               jax=bool(rng.integers(0, 4) == 0), p_share=0.4)
-    for _ in range(6):
+               jax=bool(rng.integers(0, 4) == 0), p_share=0.4, mdweight=3)
+    want = 3 if rng.integers(0, 2) else 2      # half of the cases insist on >= 3 used keys
+    best = None
+    for _ in range(8):
         g = mr.gen_program(rng, **cfg)
-        if g is not None and len(g[0]["inputs"]) >= 2:
+        if g is None or len(g[0]["inputs"]) < 2:
+            continue
+        if len(g[0]["inputs"]) >= want:
             return g, cfg
-    return None, cfg
+        best = best or g
+    return best, cfg
 
 
 def cols_of(lay, keys):
@@ -165,6 +180,8 @@ def culprit(I, mr, prog, ops, xf, cset, lay, xvec, wm):
             ok2, _ = mr.norm_close(p.J, o.J[:, cols_of(lay, vk)], RTOL, o.sjac)
             if not (ok1 and ok2):
                 return node_name(nd)
+        except mr.ProbeDomainError:
+            return node_name(nd)
         except Exception:
             return node_name(nd) + "(raises)"
     return None
@@ -233,7 +250,8 @@ def case(ck, i):
         seen_keys.add(key)
         ck.violation(key, msg, **w)
 
-    for K in subsets:
+    extra = set(int(j) for j in rng.permutation(len(subsets))[:max(1, (len(subsets) + 1)//2)])
+    for si, K in enumerate(subsets):
         cset = set(K)
         V = [k for k in keys if k not in cset]
         vcols = cols_of(lay, V)
@@ -254,7 +272,7 @@ def case(ck, i):
             k = mr.nifty_exc_key(e)
             if k is None:
                 raise
-            viol(f"raises:simplify:{k}", f"simplify_for_constant_input raised "
+            viol(f"raises:{k}", f"simplify_for_constant_input raised "
                  f"{type(e).__name__}: {str(e)[:150]}", constants=list(K),
                  nodes=[node_name(nd) for nd in prog["nodes"]])
             per_subset.append([list(K), "raises"])
@@ -282,8 +300,12 @@ def case(ck, i):
         try:
             p = mr.probe_operator(I, Fc, vfield, wm, vlay)
         except mr.NiftyRaised as e:
-            viol(f"raises:{e.phase}:{e.key}", f"specialised operator: {e}", constants=list(K),
+            viol(f"raises:{e.key}", f"specialised operator: {e}", constants=list(K),
                  nodes=[node_name(nd) for nd in prog["nodes"]])
+            continue
+        except mr.ProbeDomainError as e:
+            bad("domain-of-" + e.what.split()[0], f"specialised operator, {e.what}: unexpected "
+                "domain")
             continue
         ck.hit("value_cmp")
         ok, dev = mr.norm_close(p.vec0, o.vec, RTOL, o.sval)
@@ -328,6 +350,8 @@ def case(ck, i):
         elif p.lin.metric is not None:
             bad("metric-unexpected", "specialised non-energy operator returns a metric")
 
+        if si not in extra:       # the two costlier sub-checks run on half of the subsets
+            continue
         # ---- Linearization.make_partial_var on the unspecialised operator -----------------
         ck.hit("partial_var_cmp")
         try:
@@ -336,11 +360,15 @@ def case(ck, i):
             Mp = None
             if linp.metric is not None:
                 Mp, _ = mr.dense_linear(I, linp.metric, lay, dom, lay, False)
+        except mr.ProbeDomainError as e:
+            viol("partial_var:domain", f"make_partial_var path, {e.what}: unexpected domain",
+                 constants=list(K))
+            continue
         except Exception as e:
             k = mr.nifty_exc_key(e)
             if k is None:
                 raise
-            viol(f"raises:partial_var:{k}", f"make_partial_var path raised: {str(e)[:150]}",
+            viol(f"raises:{k}", f"make_partial_var path raised: {str(e)[:150]}",
                  constants=list(K))
             continue
         Jexp = np.zeros_like(o.J)
@@ -375,7 +403,7 @@ def energy_adapter(ck, I, mr, prog, E, xf, x, K, V, o, me, vcols, vlay, lay, vio
         k = mr.nifty_exc_key(e)
         if k is None:
             raise
-        viol(f"raises:EnergyAdapter:{k}", f"EnergyAdapter(constants) raised: {str(e)[:150]}",
+        viol(f"raises:{k}", f"EnergyAdapter(constants) raised: {str(e)[:150]}",
              constants=list(K))
         return
     off = 0.
@@ -406,7 +434,12 @@ def energy_adapter(ck, I, mr, prog, E, xf, x, K, V, o, me, vcols, vlay, lay, vio
         return
     if me is not None and ea.metric is not None:
         vdom = ea.position.domain
-        Mn, _ = mr.dense_linear(I, ea.metric, vlay, vdom, vlay, False)
+        try:
+            Mn, _ = mr.dense_linear(I, ea.metric, vlay, vdom, vlay, False)
+        except mr.ProbeDomainError:
+            viol("EnergyAdapter:metric-domain", "metric returns fields on an unexpected domain",
+                 constants=list(K))
+            return
         ok, dev = mr.norm_close(Mn, me[0][np.ix_(vcols, vcols)], RTOL, me[1])
         if not ok:
             viol("EnergyAdapter:metric", "metric differs from the variable block", reldev=dev,
